@@ -54,6 +54,9 @@ var workerKinds = map[string]func(t *testing.T){}
 
 // finish ends a check run.
 func finish(t *testing.T, run *ev.Run) {
+	if n := pmap.Stalls.Load(); n > 0 {
+		run.Note("%d job(s) stalled once (machine load) and were re-run on a fresh worker", n)
+	}
 	exitCode = run.Finish()
 	if exitCode != 0 {
 		t.Fail()
